@@ -70,9 +70,6 @@ package persistence
 //@   ensures [C13:sql-defaults-wired] len(opts) == 0 ==> result != nil && result.db == dbHandle && result.storeKeyQuery == defaultStoreKeyQuery && result.loadKeyQuery == defaultLoadKeyQuery && result.loadLatestQuery == defaultLoadLatestQuery
 
 // ---- C18: the SQL row's key_record column is the JSON document of the record itself ----
-//@ extern json.Marshal
-//@   names v
-//@   ensures result == nil || fresh(result)
 //@ extern sql.(*DB).ExecContext
 //@   names db, ctx, query, args
 //@ func (*SQLMetastore).Store
